@@ -293,6 +293,17 @@ pub fn replay_extra(prop: &str, extra: &serde_json::Value) -> Vec<String> {
         }
         return vec![];
     }
+    if let Some(r) = extra.get("kill_race") {
+        let seed = r["seed"].as_u64().unwrap_or(1);
+        let mut part = Part::default();
+        let dir = std::env::temp_dir().join(format!("vh-replay-{}", std::process::id()));
+        let code = c06_kill_race(seed, 4000, dir.to_str().unwrap_or("/tmp"), &mut part);
+        let _ = std::fs::remove_dir_all(&dir);
+        if code != 0 {
+            return part.violations.iter().map(|v| v["detail"].as_str().unwrap_or("").to_string()).collect();
+        }
+        return vec![];
+    }
     if let Some(r) = extra.get("ask_end_race") {
         let cap = r["cap"].as_u64().unwrap_or(8) as usize;
         let askers = r["askers"].as_u64().unwrap_or(3) as usize;
@@ -610,4 +621,155 @@ pub fn c13_counter_race(seed: u64, rounds: u32, replay_out: &str, part: &mut Par
         }
         0
     }
+}
+
+// ---------------------------------------------------------------------------------------------
+// C06: kill() under real concurrency
+// ---------------------------------------------------------------------------------------------
+/// Round A: several OS threads / tasks call kill() on the same fresh actor at the same instant
+/// (optionally repeatedly, optionally with a full mailbox and a busy handler); round B: one thread
+/// hammers kill() while the actor is being stopped and joined elsewhere. Every kill() must return
+/// Ok, the JoinHandle must resolve, and in round A (nothing but kills ends the actor) the result
+/// must report killed=true.
+pub fn c06_kill_race(seed: u64, rounds: u32, replay_out: &str, part: &mut Part) -> i32 {
+    use crate::actor::{MsgA, SimActor, World};
+    use crate::scenario::*;
+    use crate::trace::{Clock, Recorder};
+    use std::sync::atomic::{AtomicBool, AtomicUsize, Ordering};
+    use std::sync::Arc;
+    use std::time::Duration;
+    crate::trace::set_current(None);
+    let mut x = seed.wrapping_mul(0x9E3779B97F4A7C15) | 1;
+    let mut next = |n: u64| {
+        x ^= x << 13;
+        x ^= x >> 7;
+        x ^= x << 17;
+        (x >> 11) % n
+    };
+    let rt = tokio::runtime::Builder::new_multi_thread().worker_threads(4).enable_time().build().expect("runtime");
+    for _ in 0..rounds {
+        let cap = [1usize, 2, 8][next(3) as usize];
+        let variant_b = next(3) == 0;
+        let threads = 2 + next(5) as usize;
+        let repeats = 1 + next(3) as usize;
+        let fill = next(2) == 0;
+        let rec = Recorder::new(Clock::Real(std::time::Instant::now()), false);
+        let world = Arc::new(World { rec, specs: vec![ActorSpec { cap: cap as u32, ..ActorSpec::default() }], peers: std::sync::Mutex::new(vec![None]), us_per_ms: 1000 });
+        let (r, jh) = {
+            let _g = rt.enter();
+            rsactor::spawn_with_mailbox_capacity::<SimActor>((0, world.clone()), cap)
+        };
+        if fill {
+            // a busy handler and a full mailbox behind it
+            rt.block_on(async {
+                let _ = r.tell(MsgA(Msg { id: 1, ty: Ty::A, steps: vec![Step::Spin(200)], out: Out::Ok, job: None })).await;
+                for i in 0..cap {
+                    let _ = r.tell_with_timeout(MsgA(Msg { id: 2 + i as u32, ty: Ty::A, steps: vec![], out: Out::Ok, job: None }), Duration::from_millis(20)).await;
+                }
+            });
+        }
+        let failed = Arc::new(AtomicUsize::new(0));
+        let first_err = Arc::new(std::sync::Mutex::new(String::new()));
+        let calls = Arc::new(AtomicUsize::new(0));
+        let killed_expected;
+        let joined;
+        let result;
+        if !variant_b {
+            killed_expected = true;
+            let go = Arc::new(AtomicBool::new(false));
+            let mut hs = vec![];
+            for _ in 0..threads {
+                let (r2, go, failed, first_err, calls) = (r.clone(), go.clone(), failed.clone(), first_err.clone(), calls.clone());
+                hs.push(std::thread::spawn(move || {
+                    while !go.load(Ordering::Acquire) {
+                        std::hint::spin_loop();
+                    }
+                    for _ in 0..repeats {
+                        calls.fetch_add(1, Ordering::Relaxed);
+                        if let Err(e) = r2.kill() {
+                            failed.fetch_add(1, Ordering::Relaxed);
+                            let mut g = first_err.lock().unwrap();
+                            if g.is_empty() {
+                                *g = format!("{e}");
+                            }
+                        }
+                    }
+                }));
+            }
+            go.store(true, Ordering::Release);
+            for h in hs {
+                let _ = h.join();
+            }
+            drop(r);
+            let out = rt.block_on(async { tokio::time::timeout(Duration::from_secs(10), jh).await });
+            joined = out.is_ok();
+            result = out.ok().and_then(|x| x.ok());
+        } else {
+            killed_expected = false; // either is possible: stop and kill race
+            let done = Arc::new(AtomicBool::new(false));
+            let (r2, done2, failed2, first_err2, calls2) = (r.clone(), done.clone(), failed.clone(), first_err.clone(), calls.clone());
+            let h = std::thread::spawn(move || {
+                let mut after = 0;
+                loop {
+                    calls2.fetch_add(1, Ordering::Relaxed);
+                    if let Err(e) = r2.kill() {
+                        failed2.fetch_add(1, Ordering::Relaxed);
+                        let mut g = first_err2.lock().unwrap();
+                        if g.is_empty() {
+                            *g = format!("{e}");
+                        }
+                        break;
+                    }
+                    if done2.load(Ordering::Acquire) {
+                        after += 1;
+                        if after > 3 {
+                            break;
+                        }
+                    }
+                }
+            });
+            let delay = next(200) as u32;
+            for _ in 0..delay * 20 {
+                std::hint::spin_loop();
+            }
+            let out = rt.block_on(async {
+                let _ = r.stop().await;
+                tokio::time::timeout(Duration::from_secs(10), jh).await
+            });
+            done.store(true, Ordering::Release);
+            let _ = h.join();
+            joined = out.is_ok();
+            result = out.ok().and_then(|x| x.ok());
+        }
+        let n_failed = failed.load(Ordering::Relaxed);
+        part.evaluations += 1;
+        let key = format!("killrace:{}:cap{cap}:t{threads}:r{repeats}:fill{fill}", if variant_b { "exit" } else { "simultaneous" });
+        if !part.nontrivial_hashes.contains(&key) {
+            part.nontrivial_hashes.push(key);
+        }
+        *part.labels.entry("kill_race_rounds".into()).or_default() += 1;
+        *part.labels.entry("kill_race_kill_calls".into()).or_default() += calls.load(Ordering::Relaxed) as u64;
+        if part.samples.len() < 3 {
+            part.samples.push(serde_json::json!({"kill_race": {"variant": if variant_b { "kill racing stop+exit" } else { "simultaneous kills" }, "capacity": cap, "threads": threads, "repeats": repeats, "full_mailbox_busy_handler": fill, "kill_calls": calls.load(Ordering::Relaxed), "failed": n_failed}}));
+        }
+        let mut bad: Option<(&str, String)> = None;
+        if n_failed > 0 {
+            bad = Some(("kill-failed", format!("{n_failed} kill() call(s) returned Err ({}) - {} on an actor with capacity {cap}{}", first_err.lock().unwrap(), if variant_b { "kill() hammered from one thread while the actor was stopped and joined".to_string() } else { format!("{threads} threads x {repeats} simultaneous kill() calls") }, if fill { ", full mailbox and busy handler" } else { "" })));
+        } else if !joined {
+            bad = Some(("killed-actor-did-not-end", format!("JoinHandle unresolved 10 s after {threads} threads killed the actor")));
+        } else if killed_expected {
+            match &result {
+                Some(res) if !res.was_killed() => bad = Some(("not-reported-killed", format!("only kill() ended the actor (capacity {cap}, {threads} threads) but the result reports killed=false"))),
+                _ => {}
+            }
+        }
+        if let Some((kind, detail)) = bad {
+            let path = write_replay(replay_out, "C06", kind, &detail, serde_json::json!({"kill_race": {"seed": seed}}));
+            println!("VIOLATION property=C06 replay={path}");
+            println!("  kind={kind} detail={detail}");
+            part.violations.push(serde_json::json!({"kind": kind, "detail": detail, "replay": path}));
+            return 1;
+        }
+    }
+    0
 }
